@@ -265,9 +265,13 @@ def deps(e, j, widths, coarse):
         return deps(e[1], j - (e[2][1] & 7), widths, coarse)
     if coarse or k in ("==", "<", "any", "xorr"):
         out = set()
-        for x in e[1:]:
+        for n_, x in enumerate(e[1:]):
             if isinstance(x, list):
-                out |= all_deps(x, widths, coarse)
+                if k == "shlv" and n_ == 1:
+                    for i in range(min(3, ewidth(x, widths))):
+                        out |= deps(x, i, widths, coarse)
+                else:
+                    out |= all_deps(x, widths, coarse)
         return out
     if k in ("+", "-"):
         out = set()
@@ -275,7 +279,9 @@ def deps(e, j, widths, coarse):
             out |= deps(e[1], i, widths, coarse) | deps(e[2], i, widths, coarse)
         return out
     if k == "shlv":
-        out = all_deps(e[2], widths, coarse)
+        out = set()
+        for i in range(min(3, ewidth(e[2], widths))):       # only the low three bits of the amount are used
+            out |= deps(e[2], i, widths, coarse)
         for i in range(j + 1):
             out |= deps(e[1], i, widths, coarse)
         return out
